@@ -1010,6 +1010,73 @@ def refit_cases(chk, rng, count):
 # ----------------------------------------------------------------------------
 # exhaustive small scope
 # ----------------------------------------------------------------------------
+class _CvSpy(BaseEstimator):
+    """order-insensitive recording estimator for the hyper-parameter search path (GridSearchCV clones it,
+    so the log is a module global keyed by `log_id`)"""
+    LOGS = {}
+
+    def __init__(self, C=1.0, log_id=0):
+        self.C = C
+        self.log_id = log_id
+
+    def fit(self, X, y):
+        _CvSpy.LOGS.setdefault(self.log_id, []).append(
+            (np.asarray(X)[:, 0].astype(int).tolist(), np.asarray(y).astype(int).tolist()))
+        self.classes_ = np.array([0, 1])
+        return self
+
+    def decision_function(self, X):
+        return np.asarray(X)[:, 1].astype(float)
+
+    def score(self, X, y):
+        return 0.0
+
+
+def hyperparameter_cases(chk, rng, count):
+    """`_find_hyperparameters` (a BaseSearchCV estimator, as PercolatorModel uses) also calls estimator.fit:
+    every row handed to ANY fit call must carry the label of its own PSM (1 = accepted target, 0 = decoy)"""
+    import mokapot
+    from mokapot.dataset import LinearPsmDataset
+    from sklearn.model_selection import GridSearchCV, KFold
+
+    for _ in range(count):
+        n = rng.choice([40, 80, 150])
+        rs = np.random.default_rng(rng.randrange(1 << 30))
+        target = rs.random(n) < 0.5
+        f0 = np.where(target & (rs.random(n) < 0.7), rs.normal(4, 1, n), rs.normal(0, 1, n))
+        f0 = np.round(f0 * 32).astype(int) * 1024 + np.arange(n)
+        df = pd.DataFrame({"t": target, "spec": np.arange(n), "pep": [f"P{i}" for i in range(n)],
+                           "rowid": np.arange(n, dtype=float), "f0": f0.astype(float)})
+        log_id = rng.randrange(1 << 30)
+        shuffle = rng.random() < 0.7
+        est = GridSearchCV(_CvSpy(log_id=log_id), {"C": [0.1, 1.0]}, cv=KFold(2), refit=False)
+        model = mokapot.Model(est, scaler="as-is", train_fdr=0.25, max_iter=2, shuffle=shuffle,
+                              rng=rng.randrange(1000), override=True)
+        ds = LinearPsmDataset(df, target_column="t", spectrum_columns="spec", peptide_column="pep",
+                              feature_columns=["rowid", "f0"])
+        try:
+            model.fit(ds)
+        except Exception as e:
+            chk.reject("hyperparameter-fit-failed:" + type(e).__name__)
+            _CvSpy.LOGS.pop(log_id, None)
+            continue
+        calls = _CvSpy.LOGS.pop(log_id, [])
+        bad = 0
+        for ids, ys in calls:
+            for i, y in zip(ids, ys):
+                if (y == 0) != (not target[i]):
+                    bad += 1
+        chk.case(None, ("cv", log_id), sample=dict(hyperparameter_search=True, n=n, shuffle=shuffle,
+                                                   fit_calls=len(calls)))
+        chk.count("hyperparameter-search", f"shuffle={shuffle}")
+        if bad:
+            chk.spec_violation("cv-fit-misaligned",
+                               dict(n=n, shuffle=shuffle, misaligned_rows=bad, fit_calls=len(calls),
+                                    clause="the hyper-parameter search was fitted on feature rows paired with "
+                                           "labels of other PSMs"))
+            return
+
+
 def seeds_for_perms(n):
     want = {p: None for p in itertools.permutations(range(n))}
     missing = len(want)
@@ -1153,6 +1220,7 @@ def main(chk, args):
     argsort_cases(chk, rng, 50 if quick else 500)
     sklearn_cases(chk, rng, 6 if quick else 60)
     refit_cases(chk, rng, 60 if quick else 600)
+    hyperparameter_cases(chk, rng, 12 if quick else 120)
     if quick:
         exhaustive(chk, 3, (1, 2))
     else:
@@ -1172,7 +1240,7 @@ def main(chk, args):
         "scaler='as-is' in the exact runs; StandardScaler only in the sklearn runs (scaling is a per-column affine "
         "map fitted before shuffling and is not part of this property)",
         "hyper-parameter search (_find_hyperparameters with a BaseSearchCV estimator, PercolatorModel) is outside the "
-        "model; re-fitting a trained model is modelled (refitModel) with the scaler taken as a per-column map that "
+        "Lean model; its estimator.fit calls are checked by the alignment oracle only (hyperparameter_cases); re-fitting a trained model is modelled (refitModel) with the scaler taken as a per-column map that "
         "commutes with column selection (IntScaler in the harness)",
         "feature values are small integers so that every estimator sum/product is exact in float64; q-value "
         "threshold comparisons at an exact decimal boundary are tallied as float_boundary_cases and skipped",
